@@ -12,7 +12,7 @@ use crate::refs::wrap::GzFields;
 pub const INFO: CheckInfo = CheckInfo {
     prop: "C16",
     level: "model_checking",
-    rule: "explicit enumeration of ALL programs up to a depth over the exported entry points with small argument domains, executed in lock-step on libz-rs-sys and on zlib-ng 2.3.3 (R6): compression side = C06's 47-operation alphabet incl. illegal init parameters (level -2/10, method 7, windowBits 7/16/32/47, memLevel 0/10, strategy 5/-1) and deflatePrime at any point; decompression side = {inflate (5 flush values x {all input, 1 byte, none} x {ample, 1, 0 bytes of room}), inflatePrime ((0,0),(3,5),(16,0x1234),(16,-1),(17,0),(-1,0)), inflateSync, inflateSyncPoint, inflateValidate(0/1), inflateUndermine(1/-1), inflateResetKeep, inflateReset, inflateReset2 (-15,31,47,7,0), inflateGetHeader, inflateSetDictionary (right/wrong), inflateGetDictionary, inflateCopy (continue on copy / end copy), inflateCodesUsed, inflateEnd} after inflateInit2 over {15,-15,31,47,0,-8,8,7,16,48,-16} on five data sets (valid zlib, valid gzip with header fields, raw, corrupt, zlib with FDICT, empty); one-shot helpers compress/compress2/uncompress/uncompress2 on size lattices; NULL stream / NULL buffer arguments where zlib defines the result. After every call: same return code, same input consumed, same output bytes produced; the process must never terminate. zlib-ng is run first in a forked child (pre-screen): programs on which the reference itself crashes are counted as skipped_ng_ub. Family params-rooms: deflateInit2 (10 levels x 5 strategies) ; deflate (5 sizes, no flush / sync flush) ; deflateParams (6 new settings) with 12 output rooms (0..=9, 64, ample) x {0, 5} new input bytes ; deflate(Z_FINISH), every call compared. Family tune-matrix: deflateTune with 26 C-int values (INT_MIN..INT_MAX) for each parameter and for all four x 9 levels x 2 strategies, then one deflate(Z_FINISH): statuses and compressed bytes. Family validate-values: inflateValidate with 11 C-int values before the first call / after 1, 2, 12, 40 bytes, on intact streams and streams with a wrong check value. Family prime-on-pending (zlib-rs alone): the pending buffer filled and partly drained in every combination, then deflatePrime repeated until it refuses. Not compared (as the property lists): totals after a dictionary request, inflateMark, dictionary length, message texts, inflateUndermine's own status, deflatePending/deflateBound values.",
+    rule: "explicit enumeration of ALL programs up to a depth over the exported entry points with small argument domains, executed in lock-step on libz-rs-sys and on zlib-ng 2.3.3 (R6): compression side = C06's 47-operation alphabet incl. illegal init parameters (level -2/10, method 7, windowBits 7/16/32/47, memLevel 0/10, strategy 5/-1) and deflatePrime at any point; decompression side = {inflate (5 flush values x {all input, 1 byte, none} x {ample, 1, 0 bytes of room}), inflatePrime ((0,0),(3,5),(16,0x1234),(16,-1),(17,0),(-1,0)), inflateSync, inflateSyncPoint, inflateValidate(0/1), inflateUndermine(1/-1), inflateResetKeep, inflateReset, inflateReset2 (-15,31,47,7,0), inflateGetHeader, inflateSetDictionary (right/wrong), inflateGetDictionary, inflateCopy (continue on copy / end copy), inflateCodesUsed, inflateEnd} after inflateInit2 over {15,-15,31,47,0,-8,8,7,16,48,-16} on five data sets (valid zlib, valid gzip with header fields, raw, corrupt, zlib with FDICT, empty); one-shot helpers compress/compress2/uncompress/uncompress2 on size lattices; NULL stream / NULL buffer arguments where zlib defines the result. After every call: same return code, same input consumed, same output bytes produced; the process must never terminate. zlib-ng is run first in a forked child (pre-screen): programs on which the reference itself crashes are counted as skipped_ng_ub. Family params-rooms: deflateInit2 (10 levels x 5 strategies) ; deflate (5 sizes, no flush / sync flush) ; deflateParams (6 new settings) with 12 output rooms (0..=9, 64, ample) x {0, 5} new input bytes ; deflate(Z_FINISH), every call compared. Family tune-matrix: deflateTune with 26 C-int values (INT_MIN..INT_MAX) for each parameter and for all four x 9 levels x 2 strategies, then one deflate(Z_FINISH): statuses and compressed bytes. Family validate-values: inflateValidate with 11 C-int values before the first call / after 1, 2, 12, 40 bytes, on intact streams and streams with a wrong check value. Family prime-on-pending (zlib-rs alone): the pending buffer filled and partly drained in every combination, then deflatePrime repeated until it refuses. Family sync-odd-bits: inflateSync started with 8k + r buffered bits (first call x prime 0..=7 bits x next 0/8/16 bits, both orders) on three data sets. Not compared (as the property lists): totals after a dictionary request, inflateMark, dictionary length, message texts, inflateUndermine's own status, deflatePending/deflateBound values.",
     assumptions: &["zlib-ng 2.3.3 in compat mode is the reference", "decoding data whose back-references exceed the window announced to inflateInit2 is excluded (zlib-ng's small window makes its own verdict depend on chunking; zlib-rs always keeps 32 KiB, see C03)", "argument values outside the enumerated domains and deeper programs are not covered"],
     bound_quick: "compression: depth 3 over the full alphabet on 3 configs, depth 2 on 7 + all illegal configs depth 2; decompression: depth 3 over a 30-operation alphabet on 6 data sets x 3 init modes, depth 2 on the rest",
     bound_thorough: "compression depth 3 everywhere / depth 4 reduced alphabet; decompression depth 4 on the reduced alphabet",
@@ -1294,6 +1294,78 @@ fn prime_on_pending(ctx: &mut Ctx) {
     }
 }
 
+/// inflateSync started with a number of bits in the bit buffer that is NOT a multiple of 8 (inflate stopped inside a
+/// byte at a block boundary, or inflatePrime with 1..=7 bits) and at least one whole byte (inflatePrime with the next
+/// 8 / 16 bits of the stream): the unused bits of the byte in progress are dropped, the search starts at the next byte
+/// boundary. Every combination, in lock-step with the reference (run in a child: it has C-level UB on some primes).
+fn sync_odd_bits(ctx: &mut Ctx) {
+    let env = IEnv { ain: Arena::new(1 << 16), aout: Arena::new(1 << 17), aux: Arena::new(1 << 16), hdr: [Arena::new(4096), Arena::new(4096), Arena::new(4096)] };
+    let sets = datasets();
+    for ds in sets.iter().filter(|d| matches!(d.name, "raw" | "raw-markers" | "zlib")) {
+        let wb = if ds.name == "zlib" { 15 } else { -15 };
+        let firsts: Vec<Option<IOp>> = vec![None, Some(IOp::Inflate { flush: Z_BLOCK, inn: usize::MAX, room: AMPLE }), Some(IOp::Inflate { flush: Z_NO_FLUSH, inn: 3, room: AMPLE }), Some(IOp::Inflate { flush: Z_NO_FLUSH, inn: 11, room: AMPLE })];
+        for first in &firsts {
+            for pbits in 0..=7i32 {
+                for pval in [0i32, 0x7f, 0x55] {
+                    for pd in [0i32, 8, 16] {
+                        for order in 0..2 {
+                            if (pbits == 0 || pd == 0) && order == 1 {
+                                continue;
+                            }
+                            let mut ops: Vec<IOp> = vec![];
+                            if let Some(f) = first {
+                                ops.push(*f);
+                            }
+                            let a = if pbits > 0 { Some(IOp::Prime(pbits, pval)) } else { None };
+                            let b = if pd > 0 { Some(IOp::PrimeData(pd)) } else { None };
+                            for o in if order == 0 { [a, b] } else { [b, a] }.into_iter().flatten() {
+                                ops.push(o);
+                            }
+                            ops.push(IOp::Sync);
+                            ops.push(IOp::Inflate { flush: Z_NO_FLUSH, inn: usize::MAX, room: AMPLE });
+                            ctx.case(
+                                "sync-odd-bits",
+                                || format!("data={} ({} bytes) inflateInit2({wb}) ; {}", ds.name, ds.bytes.len(), iops_desc(&ops)),
+                                |c| {
+                                    c.exec();
+                                    let a = run_iops::<Rs>(wb, &ds.bytes, &ds.dict, &ops, &env, false, 0xA5)?;
+                                    let ng = |fill: u8| run_iops::<Ng>(wb, &ds.bytes, &ds.dict, &ops, &env, false, fill).unwrap_or_else(|e| {
+                                        let mut v = vec![0xEE];
+                                        v.extend_from_slice(e.as_bytes());
+                                        v
+                                    });
+                                    let Some(b) = in_child(|| ng(0x00)) else {
+                                        c.count("skipped_ng_ub", 1);
+                                        return Ok(());
+                                    };
+                                    if b.first() == Some(&0xEE) {
+                                        c.count("reference_not_comparable", 1);
+                                        return Ok(());
+                                    }
+                                    if a != b {
+                                        // (after a bogus sync point the reference decodes through a window it never filled)
+                                        if let Some(b2) = in_child(|| ng(0xFF)) {
+                                            if b2 != b {
+                                                c.count("not_compared_reference_depends_on_uninitialised_memory", 1);
+                                                return Ok(());
+                                            }
+                                        }
+                                        return Err(format!("status codes / data movement differ from zlib-ng: zlib-rs {} ; zlib-ng {}", decode_log(&a), decode_log(&b)));
+                                    }
+                                    c.outcome(hash_bytes(&a));
+                                    c.nontrivial();
+                                    c.validated();
+                                    Ok(())
+                                },
+                            );
+                        }
+                    }
+                }
+            }
+        }
+    }
+}
+
 pub fn run(ctx: &mut Ctx) {
     let env = OpEnv::new();
     init_matrix(ctx);
@@ -1301,6 +1373,7 @@ pub fn run(ctx: &mut Ctx) {
     tune_matrix(ctx);
     validate_values(ctx);
     prime_on_pending(ctx);
+    sync_odd_bits(ctx);
     deflate_side(ctx, &env);
     inflate_side(ctx);
     one_shots(ctx);
